@@ -50,6 +50,11 @@ Definition Disjoint (x y : occ) : Prop := Leo (o_out x) (o_in y) \/ Leo (o_out y
 Definition Before (a b : nat) (x y : occ) : Prop :=
   nltb (o_in x) (o_in y) = true \/ (neqb (o_in x) (o_in y) = true /\ a < b).
 Definition Headway (h : F) (x y : occ) : Prop := exists c, o_ce x = Some c /\ nleb (nadd c h) (o_in y) = true.
+(* the follower's front reaches the far end (a real front exit: strictly before its own release, or
+   not yet released) no sooner than the headway after the leader's tail left the link *)
+Definition ExitHeadway (h : F) (x y : occ) : Prop :=
+  forall ya, o_ax y = Some ya -> (forall yo, o_out y = Some yo -> nltb ya yo = true) ->
+    exists u, o_out x = Some u /\ nleb (nadd u h) ya = true.
 Definition Order (x y : occ) : Prop := Leoo (o_ax x) (o_ax y) /\ Leoo (o_ce x) (o_ce y) /\ Leoo (o_out x) (o_out y).
 Definition OpposingBetween (net : list link) (occs : list (list occ)) (a b : nat) (x y : occ) : Prop :=
   exists c oc z, nth_error occs c = Some oc /\ c <> a /\ c <> b /\ In z oc /\
@@ -63,7 +68,7 @@ Definition NoConflict (net : list link) (h : F) (occs : list (list occ)) : Prop 
     (* followers over the same link keep the headway (unless an opposing movement passed in between)
        and never change order inside it *)
     (o_link x = o_link y -> Before a b x y ->
-       (OpposingBetween net occs a b x y \/ Headway h x y) /\ Order x y).
+       (OpposingBetween net occs a b x y \/ (Headway h x y /\ ExitHeadway h x y)) /\ Order x y).
 
 Lemma exclb_spec net l m : exclb net l m = true <-> Excl net l m.
 Proof.
@@ -101,6 +106,23 @@ Lemma headwayb_spec h x y : headwayb h x y = true <-> Headway h x y.
 Proof. unfold headwayb, Headway. destruct (o_ce x) as [c|]; split; intros H; eauto; try discriminate.
   - destruct H as (c' & E & H). inversion E; subst; auto.
   - destruct H as (c' & E & _). discriminate. Qed.
+Lemma exit_headwayb_spec h x y : exit_headwayb h x y = true <-> ExitHeadway h x y.
+Proof.
+  unfold exit_headwayb, ExitHeadway. destruct (o_ax y) as [ya|]; [|split; [intros _ ? E; discriminate|auto]].
+  destruct (o_out y) as [yo|].
+  - destruct (nltb ya yo) eqn:El.
+    + destruct (o_out x) as [u|]; split.
+      * intros H ya' E _. inversion E; subst. eauto.
+      * intros H. destruct (H ya eq_refl) as (u' & E & H'); [intros yo' E; inversion E; subst; auto|]. inversion E; subst; auto.
+      * discriminate.
+      * intros H. destruct (H ya eq_refl) as (u' & E & _); [intros yo' E; inversion E; subst; auto|]. discriminate.
+    + split; auto. intros _ ya' E H. inversion E; subst. specialize (H yo eq_refl). congruence.
+  - destruct (o_out x) as [u|]; split.
+    + intros H ya' E _. inversion E; subst. eauto.
+    + intros H. destruct (H ya eq_refl) as (u' & E & H'); [intros yo' E; discriminate|]. inversion E; subst; auto.
+    + discriminate.
+    + intros H. destruct (H ya eq_refl) as (u' & E & _); [intros yo' E; discriminate|]. discriminate.
+Qed.
 Lemma orderb_spec x y : orderb x y = true <-> Order x y.
 Proof. unfold orderb, Order. rewrite !andb_true_iff, !leoo_spec. tauto. Qed.
 
@@ -123,10 +145,11 @@ Qed.
 Lemma pair_okb_spec net h occs a b x y :
   pair_okb net h occs a b x y = true <->
   (Excl net (o_link x) (o_link y) -> Disjoint x y) /\
-  (o_link x = o_link y -> Before a b x y -> (OpposingBetween net occs a b x y \/ Headway h x y) /\ Order x y).
+  (o_link x = o_link y -> Before a b x y ->
+     (OpposingBetween net occs a b x y \/ (Headway h x y /\ ExitHeadway h x y)) /\ Order x y).
 Proof.
   unfold pair_okb. rewrite andb_true_iff, !orb_true_iff, !negb_true_iff, andb_true_iff.
-  rewrite disjointb_spec, orb_true_iff, opposing_betweenb_spec, headwayb_spec, orderb_spec.
+  rewrite disjointb_spec, orb_true_iff, andb_true_iff, opposing_betweenb_spec, headwayb_spec, exit_headwayb_spec, orderb_spec.
   split.
   - intros [H1 H2]. split.
     + intros He. destruct H1 as [H1|H1]; auto. apply exclb_spec in He. congruence.
